@@ -34,6 +34,9 @@ CONFIGS = [
          terminal=[], targets=[120, 300]),
     # labels that end in a digit (the order is the LAST character only)
     dict(name="digitlabel", frags="{#PEO=[<1]COC[>1],#PE=[<1]CC[>1][$A2]=[$A2]}", all_atom=True, react={}, cond={}, terminal=[], targets=[150, 400]),
+    # ends fully capped exactly when the target is reached: no open descriptor is left on the returned molecule
+    dict(name="fullcap", frags="{#CORE=[$A]OCCO[$A],#CAP=[$B]C(=O)C}", all_atom=True, react={"$A": 1.0, "$B": 0.0},
+         cond={"$A": {"$B": 1.0, "$A": 0.0}}, terminal=[], targets=[80], start_fragment="CORE"),
     dict(name="orders", frags="{#A=[$]=CC[$],#B=[$]=C(F)C=[$],#C=[$]O[$]}", all_atom=True,
          react={}, cond={}, terminal=[], targets=[120, 400]),
     dict(name="dirorders", frags="{#A=[>]=CC[<],#B=[<]=C(N)C[>],#C=[>x]O[<x]=[<]}", all_atom=True,
